@@ -28,6 +28,14 @@ def runOpAnalysis (op : String) (args : List String) : String :=
     match decTrees ts with
     | some ts => toString (distinctCount (ts.foldl posTagsRun []))
     | none => bad
+  | "P.C16.tags", [ts, out] =>
+    -- out: "<tags collected> <different tags reported>" ('-' where not observed)
+    match decTrees ts, out.splitOn " " with
+    | some ts, [n, d] =>
+      let tags := ts.flatMap fun t => t.terminals.map (·.fields.label)
+      firstFail [okIf (n == "-" || n.toNat? == some (ts.map fun t => t.leafNums.length).sum) "one-tag-per-token",
+        okIf (d == "-" || d.toNat? == some tags.eraseDups.length) "different-tags-of-the-file"]
+    | _, _ => bad
   | "P.C16.node", [t, out] => withTree t fun t =>
       -- out: per storage path "b1|b2|..:deg" as returned by terminal_blocks / gap_degree_node
       let ps := paths t
